@@ -12,7 +12,7 @@
 (* {"ev":"flat","n":N,"nesting":D,"base":B,"max":M,"survived":BOOL}         *)
 (*     a long flat stream: call-stack depth samples taken inside Pull()     *)
 (***************************************************************************)
-EXTENDS StoreFn, Json, IOUtils
+EXTENDS HtmlAdapter, JsonAdapter, Json, IOUtils
 
 Trace == ndJsonDeserialize(IOEnv.TRACE)
 VARIABLES l, c, nbad
@@ -78,10 +78,30 @@ FlatRun ==
      IN /\ (~ok => PrintT(ToJson([verdict |-> [stack |-> FALSE], l |-> l])))
         /\ nbad' = nbad + (IF ok THEN 0 ELSE 1)
 
+\* C17: the events pulled from parser.ReadHtml must be the mapping of the DOM x/net/html.Parse built
+\* {"ev":"html","dom":[...],"pulls":[...]}
+HtmlRun ==
+  /\ IsEvent("html")
+  /\ LET ev == Trace[l]
+         want == HtmlEvents(ev.dom)
+         ok == SameTree(ev.pulls, want) /\ Conforms(ev.pulls)
+     IN /\ (~ok => PrintT(ToJson([verdict |-> [html |-> FALSE], l |-> l, want |-> want])))
+        /\ nbad' = nbad + (IF ok THEN 0 ELSE 1)
+
+\* C16: the events pulled from parser.ReadJson must be the documented mapping of the JSON values
+\* {"ev":"json","vals":[...],"pulls":[...]}
+JsonRun ==
+  /\ IsEvent("json")
+  /\ LET ev == Trace[l]
+         want == DocEvents(ev.vals)
+         ok == ev.pulls = want
+     IN /\ (~ok => PrintT(ToJson([verdict |-> [json |-> FALSE], l |-> l, want |-> want])))
+        /\ nbad' = nbad + (IF ok THEN 0 ELSE 1)
+
 Done ==
   /\ c # 0 /\ l > Len(Trace)
   /\ PrintT(ToJson([verdict |-> "done", chunk |-> c, lines |-> Cardinality({k \in 1..Len(Trace) : k % NC = c % NC}), bad |-> nbad]))
   /\ l' = -1 /\ UNCHANGED <<c, nbad>>
 
-TNext == Fork \/ StoreRun \/ FlatRun \/ Done
+TNext == Fork \/ StoreRun \/ FlatRun \/ HtmlRun \/ JsonRun \/ Done
 =============================================================================
